@@ -40,6 +40,9 @@ ID9 = ident("ident9", 0xF108, [dict(kind="value", name="m", dop=dict(
         dict(name="c1", lo=1, hi=1, structure=dict(params=[V("code")])),
         dict(name="c2", lo=2, hi=9, structure=dict(params=[V("other")]))]))])
 ID7A = ident("ident7a", 0xF1B6, [dict(kind="value", name="txt1", dop={"dt": "A_ASCIISTRING", "bl": 8})])
+ID10 = ident("ident10", 0xF109, [dict(kind="value", name="blocks", dop=dict(
+    complex="eopfield", structure=dict(params=[V("major"), dict(kind="value", name="sw", dop=dict(
+        complex="structure", params=[V("major"), V("minor")]))])))])
 NEGR = rq(C("sid", 0x7F), MR("rsid"), V("nrc"))
 
 
@@ -114,6 +117,10 @@ CANDIDATES = {
                            variant("v2", [[dict(mp("A", "ident7a", "txt1"), xml=True)]],
                                    services=(ID1, ID2, ID3, ID4, ID5, ID6, ID7, ID8, ID9, ID7A)),
                            variant("v3", [[dict(mp(" A", "ident7", "txt"), xml=True)]])],
+    # a path that goes on below the items of a field: blocks[*].sw.major, not blocks[*].major
+    "path-below-field": [variant("v1", [[mp("5", "ident10", None, "blocks.sw.major")]], services=(ID1, ID10)),
+                         variant("v2", [[mp("6", "ident10", None, "blocks.major")]], services=(ID1, ID10)),
+                         variant("v3", [[mp("7", "ident10", None, "blocks.sw.minor")]], services=(ID1, ID10))],
     "shared-and-distinct": [variant("v1", [[mp("1", "ident1", "v"), mp("2", "ident2", "w")]]),
                             variant("v2", [[mp("1", "ident1", "v"), mp("3", "ident2", "w")]]),
                             variant("v3", [[mp("4", "ident2", "w")]])],
